@@ -85,6 +85,16 @@ func (p c10) Run(c *core.Ctx) {
 		}
 	} else if c.Index < p.popCount(c.Tier) {
 		g = RandomPopulation(c.Rng, PopOpts{MinP: 3, MaxP: 12, Types: world.TypesAll, PUnnamed: 0.4})
+		if c.Rng.Intn(4) == 0 {
+			// two components whose names differ only in case: two names, two components
+			g.AddNode([]int{0, 1}[c.Rng.Intn(2)], "cv")
+			g.AddNode([]int{0, 3}[c.Rng.Intn(2)], "Cv")
+			h := g.AddNode(5, "cvholder")
+			g.SetTag(h, "IA0", "wire", "cv")
+			g.SetTag(h, "IA1", "wire", "Cv")
+			g.SetTag(h, "Any0", "wire", []string{"cv", "Cv"}[c.Rng.Intn(2)])
+			c.Count("populations_with_case_variant_names", 1)
+		}
 		n := len(g.Sc.Nodes)
 		mix := TagMix{ByType: 4, Func: 0.4, ByName: 0.4, PQualifier: 0.3, POptional: 0.4}
 		// self-candidate holders: by-type points on interfaces the holder implements itself
@@ -238,6 +248,36 @@ func (p c10) Run(c *core.Ctx) {
 		wiring := determinedWiring(r, exp)
 		if len(dups) > 0 {
 			wiring = rawWiring(r)
+		}
+		// the sequence in which the application runners ran is part of the outcome whenever the ordering
+		// contract fixes it completely (no two runners of one class with the same order, at most one unordered)
+		{
+			type rk struct{ class, ord int }
+			seen := map[rk]int{}
+			var runs []string
+			fixed := true
+			for i := range sc.Nodes {
+				if world.Palette[sc.Nodes[i].Type].Runner {
+					pt := runnerPart(sc, i)
+					k := rk{pt.class, pt.ord}
+					if pt.class == 2 {
+						k.ord = 0
+					}
+					seen[k]++
+					if seen[k] > 1 {
+						fixed = false
+					}
+				}
+			}
+			if fixed && len(seen) >= 2 {
+				for _, e := range r.Log.Events() {
+					if e.Kind == "run" {
+						runs = append(runs, e.Who)
+					}
+				}
+				wiring += ";runners=" + strings.Join(runs, ">")
+				c.Count("runs_with_a_fixed_runner_sequence", 1)
+			}
 		}
 		var descs []string
 		for _, d := range depPPs {
